@@ -20,6 +20,7 @@ ArgsMatch(e, o) ==
   /\ ("t" \in DOMAIN o) => o.t = e.t
   /\ ("s" \in DOMAIN o) => o.s = e.s
   /\ ("d" \in DOMAIN o) => o.d = e.d
+  /\ ("stale" \in DOMAIN o) => o.stale = e.stale
   /\ ("announced" \in DOMAIN o) => o.announced = e.announced
   /\ ("expired" \in DOMAIN o) => (o.expired = e.expired /\ o.validExpired = e.validExpired)
   /\ ("found" \in DOMAIN o) => (o.found = AsSet(e.found) /\ o.count = e.count)
